@@ -563,7 +563,15 @@ def u_integer_product():
         c.assume(lmB)
         c.lemma("post:complete(p=x*c=>rows-satisfiable):bit-bounds", z3.Implies(z3.And(*hy), bnd_b), prop=P, kind="post")
         c.lemma("post:complete(p=x*c=>rows-satisfiable):bits-sum-to-x", z3.Implies(z3.And(*hy), Sb.S(n) == x), prop=P, kind="post")
-        c.lemma("post:complete(p=x*c=>rows-satisfiable):component-bounds", z3.Implies(z3.And(wit_g, *hy), bnd_g), prop=P, kind="post")
+        # component bounds: forall-introduction at a Skolem index with the three instances it needs (keeps the nonlinear query quantifier-free:
+        # bit in {0,1}, component = bit*c, lb <= c <= ub, lb <= 0 <= ub  =>  lb <= component <= ub); the generalisation is the engine's rule
+        jsk = c.fresh_const("arbitrary_bit", INT)
+        inst_bit = z3.Implies(z3.And(*hy), z3.substitute_vars(bnd_b.body(), jsk))
+        inst_prod = z3.Implies(wit_g, z3.substitute_vars(wit_g.body(), jsk))
+        range_c = z3.And(lb.t <= cc, cc <= ub.t, lb.t <= 0, 0 <= ub.t)
+        c.prove_from("post:complete(p=x*c=>rows-satisfiable):component-bounds", [inst_bit, inst_prod, range_c],
+                     z3.Implies(z3.And(wit_g, *hy), z3.substitute_vars(bnd_g.body(), jsk)), prop=P, kind="post")
+        c.assume(z3.Implies(z3.And(wit_g, *hy), bnd_g))
         c.lemma("post:complete(p=x*c=>rows-satisfiable):components-sum-to-p", z3.Implies(z3.And(wit_g, *hy), Sg.S(n) == p), prop=P, kind="post")
         c.lemma("aux:store-before-loop-is-H0+bounds+bit-row", st["Hpre"] == z3.And(H0, bnd_b, Sb.S(n) == x, bnd_g), kind="post")
         c.prove("post:complete(p=x*c=>rows-satisfiable)", z3.Implies(z3.And(H0, wit_g, *hy), H), prop=P)
